@@ -233,12 +233,21 @@ def run_c11(tier):
                             e = getattr(mod, m['t']['name'])()
                             V.apply(e, m['t'], V.gen_value(chk.rng, m['t'], max_len=2))
                             elems.append(e)
+                        given = elems[:1] if m['mk'] == 'limited' and m['size'] < 2 else elems
+                        # the messages come as a list, a tuple, or a one-shot iterator / generator
+                        how = chk.rng.choice(['list', 'tuple', 'iterator', 'generator'])
+                        source = {'list': list, 'tuple': tuple, 'iterator': iter, 'generator': lambda xs: (x for x in xs)}[how](given)
+                        want = [V.readback(e, m['t']) for e in given]
                         try:
-                            arr.extend(elems[:1] if m['mk'] == 'limited' and m['size'] < 2 else elems)
+                            arr.extend(source)
                         except Exception as ex:  # noqa
                             chk.property_violation({'schema': c.text, 'type': c.name, 'member': m['n']}, {'what': 'extend raised %s' % py_impl.exc_class(ex)})
                             continue
                         before = [V.readback(x, m['t']) for x in arr]
+                        chk.bump('extend-from:' + how)
+                        if before != want:
+                            chk.property_violation({'schema': c.text, 'type': c.name, 'member': m['n'], 'given_as': how},
+                                                   {'what': 'extend() did not store copies of the messages it was given', 'given': want, 'stored': before})
                         ids_arr, ids_src = set(), set()
                         for x in arr:
                             mutable_ids(x, m['t'], ids_arr)
